@@ -1344,14 +1344,20 @@ func (c *Conn) readLine() (string, error) {
 		}
 	}
 
-	line, err := c.text.ReadLine()
-	if err == nil && c.lineLimitReader.exceeded() {
-		// The buffered reader hands out what it already held of a line and
-		// drops the error when the rest of the line turns out to be too
-		// long: the beginning of such a line must not be taken for a command.
-		return "", ErrTooLongLine
+	// A line ends with its terminator. ReadString reports an error whenever
+	// it has not seen one (timeout, connection closed, line refused by the
+	// limiter): what was received of such a line so far must not be taken
+	// for a command.
+	line, err := c.text.R.ReadString('\n')
+	if err != nil {
+		if c.lineLimitReader.exceeded() {
+			return "", ErrTooLongLine
+		}
+		return "", err
 	}
-	return line, err
+	line = strings.TrimSuffix(line, "\n")
+	line = strings.TrimSuffix(line, "\r")
+	return line, nil
 }
 
 func (c *Conn) reset() {
